@@ -736,7 +736,12 @@ def kw_wellextra(draw, m):
                                                                                    draw(st.sampled_from(["YES", "NO"])))]
     else:
         opts += ["WINJTEMP\n '%s' 1* %s /\n/\n" % (w, draw(st.sampled_from(["50", "35.5"]))), "WTEMP\n '%s' 40 /\n/\n" % w,
-                 ] + (["WINJMULT\n '%s' 5000 1.5 '%s' /\n/\n" % (w, draw(st.sampled_from(["WREV", "CREV", "CIRR"])))] if W.get("ctl") == "inje" else [])
+                 ] + (["WINJMULT\n '%s' 5000 1.5 '%s' /\n/\n" % (w, draw(st.sampled_from(["WREV", "CREV", "CIRR"]))),
+                       # per-connection records (modes CREV / CIRR), one connection after the other
+                       "WINJMULT\n%s/\n" % "".join(" '%s' %s 1.5 '%s' %d %d %d /\n" % ((w, draw(st.sampled_from(["5000", "4000"])), md) + tuple(c))
+                                                    for md in [draw(st.sampled_from(["CREV", "CIRR"]))]
+                                                    for c in W["conns"][:draw(st.integers(1, 3))])]
+                      * (3 if len(W["conns"]) > 1 else 1) if W.get("ctl") == "inje" else [])
     return draw(st.sampled_from(opts))
 
 
